@@ -254,10 +254,13 @@ func write(oprot *protocol, name string, fieldType int, id int16, fs []byte) (of
 			return offset, fmt.Errorf("write map end error: %w", err)
 		}
 	case TStruct:
-		_, l, err := Binary.ReadStructBegin(fs[offset:])
+		sname, l, err := Binary.ReadStructBegin(fs[offset:])
 		offset += l
 		if err != nil {
 			return offset, fmt.Errorf("read struct begin error: %w", err)
+		}
+		if err = oprot.WriteStructBegin(ctx, sname); err != nil {
+			return offset, fmt.Errorf("write struct begin error: %w", err)
 		}
 		for {
 			name, fieldTypeID, fieldID, l, err := Binary.ReadFieldBegin(fs[offset:])
